@@ -200,7 +200,8 @@ def cases(draw):
         v1 = [draw(fl(0.1, 1.0)) for _ in range(n)]
     use_args = draw(st.booleans())
     s = draw(fl(0.5, 1.5)) if use_args else 1.0
-    method = draw(st.sampled_from((["Radau", "BDF"] * 3 + list(METHODS)) if band else METHODS))
+    # (the implicit methods carry most of the binding's options - jac, jac_sparsity, min_step -: half of the cases)
+    method = draw(st.sampled_from((["Radau", "BDF"] * 3 + list(METHODS)) if band else (list(METHODS) + ["Radau", "BDF"])))
     int_ret = method == "RK4" and kind == "lin" and draw(st.integers(0, 3)) == 0
     back = draw(st.booleans())
     t0 = draw(st.sampled_from([0.0, 0.0, 1.5, -3.25])) if not draw(st.booleans()) else draw(fl(-10, 10))
